@@ -110,6 +110,10 @@ pub struct Inj {
     pub c: i32,
     /// for a replaced `if`: the replacement starts with `drop` (consumes the condition)
     pub drop_first: bool,
+    /// after the injection, `clear_instr_at(location, mode)` is called through the same API object
+    /// kind: everything injected so far in that mode at that instruction is withdrawn
+    #[serde(default)]
+    pub retract: bool,
 }
 
 #[derive(Clone, Debug, Serialize, Deserialize)]
@@ -407,6 +411,28 @@ pub fn apply_and_encode(bytes: &[u8], plan: &[Inj], api: Api, encodes: usize) ->
                     }
                 }
             }
+            // withdraw what was injected in this mode at this instruction
+            if inj.retract {
+                if let Some(m) = inj.mode.imode() {
+                    match api {
+                        Api::IterMode | Api::IterInjectAt | Api::IterAddInstrAt => {
+                            let module = module_holder.as_mut().unwrap();
+                            let mut it = ModuleIterator::new(module, &vec![]);
+                            it.clear_instr_at(Location::Module { func_idx: FunctionID(f), instr_idx: inj.at }, m);
+                        }
+                        Api::ModAt | Api::ModInjectAt | Api::ModAddInstrAt => {
+                            let module = module_holder.as_mut().unwrap();
+                            let mut fm = module.functions.get_fn_modifier(FunctionID(f)).expect("harness: local function");
+                            fm.clear_instr_at(Location::Module { func_idx: FunctionID(f), instr_idx: inj.at }, m);
+                        }
+                        _ => {
+                            let comp = comp_holder.as_mut().unwrap();
+                            let mut it = ComponentIterator::new(comp, HashMap::new());
+                            it.clear_instr_at(Location::Component { mod_idx: ModuleID(0), func_idx: FunctionID(f), instr_idx: inj.at }, m);
+                        }
+                    }
+                }
+            }
         }
         applied = true;
         let mut outs = vec![];
@@ -471,6 +497,15 @@ fn expected_ops(orig: &IFunc, plan: &[Inj]) -> Vec<String> {
             SMode::Alternate => alt[i.at].get_or_insert_with(Vec::new).extend(code(i)),
             SMode::EmptyAlternate => alt[i.at] = Some(vec![]),
             _ => {}
+        }
+        if i.retract {
+            // everything injected so far in this mode at this instruction is withdrawn
+            match i.mode {
+                SMode::Before => before[i.at].clear(),
+                SMode::After => after[i.at].clear(),
+                SMode::Alternate => alt[i.at] = None,
+                _ => {}
+            }
         }
     }
     let mut out = vec![];
@@ -658,7 +693,7 @@ fn c15_plans(n_ops: usize, p: usize) -> Vec<Vec<Inj>> {
             sites.push((at, m));
         }
     }
-    let mk = |k: usize, s: &(usize, SMode)| Inj { at: s.0, mode: s.1, c: 0x7100 + k as i32, drop_first: false };
+    let mk = |k: usize, s: &(usize, SMode)| Inj { at: s.0, mode: s.1, c: 0x7100 + k as i32, drop_first: false, retract: false };
     let compatible = |a: &(usize, SMode), b: &(usize, SMode)| -> bool {
         // alternate and removal on one site: a removal that comes LAST leaves nothing of the replacement
         // requested before it (the caller's last word is "remove"; `empty_alternate` is documented as
@@ -695,7 +730,7 @@ pub fn check_c15(tier: Tier) -> i32 {
     let progs = program_list(&gr);
     let p = tier.pick(2, 2);
     run.rule = format!(
-        "ALL function bodies of the statement grammar with <= {} nodes / nesting <= 2 ({} programs covering every instruction kind incl. else, inner end and the final end) x ALL plans of <= {} injections over (instruction, mode) with mode in {{before, after, alternate, empty alternate}} (two injections on the same site and mode included; thorough adds all plans of 3 injections on the programs with <= 2 nodes) x 9 API paths (module iterator, function modifier, component iterator; each through mode()+inject, inject_at and *_at+add_instr_at; quick rotates the path over the plans, thorough runs every path on every plan). Oracle: the decoded instruction list of the function equals, instruction by instruction, before ++ (alternate | instruction) ++ after, with only before-code at the final end; the other function is unchanged. Non-trivial class = (multiset of (mode, instruction role), API path).",
+        "ALL function bodies of the statement grammar with <= {} nodes / nesting <= 2 ({} programs covering every instruction kind incl. else, inner end and the final end) x ALL plans of <= {} injections over (instruction, mode) with mode in {{before, after, alternate, empty alternate}} (two injections on the same site and mode included, an alternate followed by a removal included; every plan also with one of its injections retracted again through clear_instr_at; thorough adds all plans of 3 injections on the programs with <= 2 nodes) x 9 API paths (module iterator, function modifier, component iterator; each through mode()+inject, inject_at and *_at+add_instr_at; quick rotates the path over the plans, thorough runs every path on every plan). Oracle: the decoded instruction list of the function equals, instruction by instruction, before ++ (alternate | instruction) ++ after, with only before-code at the final end; the other function is unchanged. Non-trivial class = (multiset of (mode, instruction role), API path).",
         gr.max_nodes,
         progs.len(),
         p
@@ -704,7 +739,21 @@ pub fn check_c15(tier: Tier) -> i32 {
     for (pi, prog) in progs.iter().enumerate() {
         let em = emit(prog);
         let n_ops = em.roles[0].len();
-        for (k, plan) in c15_plans(n_ops, p).into_iter().enumerate() {
+        let mut plans = c15_plans(n_ops, p);
+        // retraction: one injection of the plan is followed by clear_instr_at(site, mode) - the plan then
+        // lowers as if the code injected so far in that mode at that site had never been injected
+        let mut retracted = vec![];
+        for pl in plans.iter() {
+            for r in 0..pl.len() {
+                if matches!(pl[r].mode, SMode::Before | SMode::After | SMode::Alternate) {
+                    let mut p2 = pl.clone();
+                    p2[r].retract = true;
+                    retracted.push(p2);
+                }
+            }
+        }
+        plans.extend(retracted);
+        for (k, plan) in plans.into_iter().enumerate() {
             if tier == Tier::Thorough {
                 for api in ALL_APIS {
                     cases.push(Case { program: prog.clone(), plan: plan.clone(), api });
@@ -726,7 +775,7 @@ pub fn check_c15(tier: Tier) -> i32 {
         }
         run_cases_static(&mut run, "three injections, small programs", cases, false);
     }
-    run.assumptions.push("alternate and empty-alternate are never combined on one site (the property does not say which wins)".into());
+    run.assumptions.push("a removal followed by alternate code on one site is not enumerated (the property does not say whether a removal is sticky); an alternate followed by a removal is judged as a removal".into());
     run.finish()
 }
 
@@ -750,7 +799,7 @@ fn c21_cases(tier: Tier) -> Vec<Case> {
             Err(_) => continue,
         };
         let f = &m.funcs[0];
-        let mk = |k: usize, at: usize, empty: bool| Inj { at, mode: if empty { SMode::EmptyBlockAlt } else { SMode::BlockAlt }, c: 0x7200 + k as i32, drop_first: matches!(roles[at], Role::If) };
+        let mk = |k: usize, at: usize, empty: bool| Inj { at, mode: if empty { SMode::EmptyBlockAlt } else { SMode::BlockAlt }, c: 0x7200 + k as i32, drop_first: matches!(roles[at], Role::If), retract: false };
         let region = |at: usize| -> (usize, usize) {
             match roles[at] {
                 Role::Else => (at, f.end_of[at]),
@@ -783,12 +832,56 @@ fn c21_cases(tier: Tier) -> Vec<Case> {
                         continue;
                     }
                     let mut p2 = pl.clone();
-                    p2.push(Inj { at, mode, c: 0x7300, drop_first: false });
+                    p2.push(Inj { at, mode, c: 0x7300, drop_first: false, retract: false });
                     with_probe.push(p2);
                 }
             }
         }
-        for (k, plan) in plans.into_iter().chain(with_probe.into_iter()).enumerate() {
+        // the same with the ordinary probe injected BEFORE the block alternates (order of API calls)
+        let reordered: Vec<Vec<Inj>> = with_probe
+            .iter()
+            .map(|pl| {
+                let mut p2 = pl.clone();
+                let last = p2.pop().unwrap();
+                p2.insert(0, last);
+                p2
+            })
+            .collect();
+        // plus one probe of any mode on an instruction strictly INSIDE a replaced region: it goes away with
+        // the region ("removes the construct from its opening instruction through its matching end")
+        let mut with_inner = vec![];
+        for pl in plans.iter() {
+            let regions: Vec<(usize, usize)> = pl.iter().map(|i| region(i.at)).collect();
+            for at in 0..roles.len() {
+                if !regions.iter().any(|(s, e)| at > *s && at < *e) || matches!(roles[at], Role::Aux) {
+                    continue;
+                }
+                // special modes only: a body that is gone is never entered, left or passed (C18-C20), so
+                // their code must not survive; what becomes of plain before/after code attached to a
+                // removed instruction is not specified (the library keeps it) and is not judged
+                let blockish = matches!(roles[at], Role::Block | Role::Loop | Role::If | Role::Else);
+                let mut modes = vec![];
+                if blockish {
+                    modes.extend([SMode::BlockEntry, SMode::BlockExit]);
+                    if !matches!(roles[at], Role::Loop) {
+                        modes.push(SMode::SemanticAfter);
+                    }
+                }
+                for mode in modes {
+                    for first in [false, true] {
+                        let mut p2 = pl.clone();
+                        let probe = Inj { at, mode, c: 0x7301, drop_first: false, retract: false };
+                        if first {
+                            p2.insert(0, probe);
+                        } else {
+                            p2.push(probe);
+                        }
+                        with_inner.push(p2);
+                    }
+                }
+            }
+        }
+        for (k, plan) in plans.into_iter().chain(with_probe.into_iter()).chain(reordered.into_iter()).chain(with_inner.into_iter()).enumerate() {
             let api = [Api::IterMode, Api::ModAt, Api::CompMode, Api::IterAddInstrAt, Api::IterInjectAt][(pi + k) % 5];
             cases.push(Case { program: prog.clone(), plan, api });
         }
@@ -800,11 +893,11 @@ pub fn check_c21(tier: Tier) -> i32 {
     let mut run = Run::new("C21", tier, "exploration");
     let cases = c21_cases(tier);
     run.rule = format!(
-        "ALL function bodies with <= {} nodes / nesting <= 3 over block, loop, if, if-else, mark, nop, br_if x ALL plans of 1 or 2 block-alternates (non-empty `[drop;] i32.const c; drop` / empty) on block, loop, if, else openers - nested and sequential - plus every placement of one before/after probe outside the replaced regions, rotated over 5 API paths. Oracle: an independent matcher deletes [opener ..= matching end] (else: [else .. end)) and inserts the replacement at the opener's place (outermost replacement wins for nested ones); the decoded instruction list must equal that, and the output must validate (a replaced `if` consumes its condition with `drop`).",
+        "ALL function bodies with <= {} nodes / nesting <= 3 over block, loop, if, if-else, mark, nop, br_if x ALL plans of 1 or 2 block-alternates (non-empty `[drop;] i32.const c; drop` / empty) on block, loop, if, else openers - nested and sequential - plus every placement of one before/after probe outside the replaced regions (injected after and, separately, before the block alternates), plus every placement of one special-mode probe (block-entry, block-exit, semantic-after) on a construct strictly inside a replaced region (a body that is gone is never entered, left or passed: the probe must vanish with the region), rotated over 5 API paths. Oracle: an independent matcher deletes [opener ..= matching end] (else: [else .. end)) and inserts the replacement at the opener's place (outermost replacement wins for nested ones); the decoded instruction list must equal that, and the output must validate (a replaced `if` consumes its condition with `drop`).",
         tier.pick(3, 4)
     );
     run_cases_static(&mut run, "block alternates", cases, true);
-    run.assumptions.push("no before/after probe is placed on the opener of a replaced construct or inside a replaced region (the property does not say what happens to them)".into());
+    run.assumptions.push("no probe is placed on the opener of a replaced construct (the property does not say what happens to it); special-mode probes on constructs strictly inside a replaced region must vanish with it; plain before/after code attached to removed instructions is not judged (unspecified; the library keeps it); semantic-after probes on branches inside a region are not placed (their flag code may legitimately live outside the region)".into());
     run.finish()
 }
 
@@ -818,7 +911,7 @@ pub struct C22Case {
     pub api: Api,
 }
 
-fn judge_c22(c: &C22Case) -> Result<(Vec<Mismatch>, String, u64), String> {
+fn judge_c22(c: &C22Case) -> Result<(Vec<Mismatch>, String, u64, bool), String> {
     let em = emit(&c.program);
     let role = role_at(&em.roles[0], c.inj.at);
     let mut where_ = if matches!(c.inj.mode, SMode::FuncEntry | SMode::FuncExit) { "function".to_string() } else { role.to_string() };
@@ -873,7 +966,7 @@ fn judge_c22(c: &C22Case) -> Result<(Vec<Mismatch>, String, u64), String> {
             if p.msg.starts_with("harness:") {
                 return Err(p.msg);
             }
-            Ok((vec![], class, hash_of(&("rejected", p.site()))))
+            Ok((vec![], class, hash_of(&("rejected", p.site())), false))
         }
         Ok(outs) => {
             let enc = &outs[0];
@@ -888,7 +981,54 @@ fn judge_c22(c: &C22Case) -> Result<(Vec<Mismatch>, String, u64), String> {
                     format!("the injection was accepted and encoding succeeded, but the encoded function does not contain it{}", if bug_logged { " (the library logged a 'BUG: ... should be resolved already' error)" } else { "" }),
                 ));
             }
-            Ok((ms, class, hash_of(enc)))
+            Ok((ms, class, hash_of(enc), reflected))
+        }
+    }
+}
+
+/// what the other call of a C22 call sequence is, relative to the judged injection (constant 0x7400)
+fn describe_seq(plan: &[Inj]) -> String {
+    let pos = plan.iter().position(|i| i.c == 0x7400).unwrap_or(0);
+    let first = &plan[pos];
+    match plan.iter().find(|i| i.c != 0x7400) {
+        Some(o) if o.retract => "followed by a withdrawn injection of the same mode elsewhere".to_string(),
+        Some(o) if o.mode != SMode::Before => format!("{} by {} elsewhere", if pos == 0 { "followed" } else { "preceded" }, o.mode.name()),
+        Some(o) => {
+            let func_level = matches!(first.mode, SMode::FuncEntry | SMode::FuncExit);
+            let same = if o.at == first.at && !func_level { "same instruction" } else { "another instruction" };
+            format!("{} by before on {}", if pos == 0 { "followed" } else { "preceded" }, same)
+        }
+        None => "alone".to_string(),
+    }
+}
+
+/// a call sequence around one special-mode injection (constant 0x7400): it must still be reflected
+fn judge_c22_seq(case: &Case) -> Result<Option<Mismatch>, String> {
+    let em = emit(&case.program);
+    let what = describe_seq(&case.plan);
+    match catch(|| apply_and_encode(&em.bytes, &case.plan, case.api, 1)) {
+        Err(p) => Err(format!("harness panic {}", p.msg)),
+        Ok(Err((_applied, p))) => {
+            if p.msg.starts_with("harness:") {
+                Err(p.msg)
+            } else {
+                Ok(None) // rejected at a call or loud encode failure
+            }
+        }
+        Ok(Ok(outs)) => {
+            let got = ops_of(&outs[0], 0)?;
+            let needle = format!("I32Const {{ value: {} }}", 0x7400);
+            if got.iter().any(|o| *o == needle) {
+                Ok(None)
+            } else {
+                let first = case.plan.iter().find(|i| i.c == 0x7400).ok_or("no judged injection in the plan")?;
+                let role = role_at(&em.roles[0], first.at);
+                let where_ = if matches!(first.mode, SMode::FuncEntry | SMode::FuncExit) { "function".to_string() } else { role.to_string() };
+                Ok(Some(Mismatch::new(
+                    format!("silently-lost {} on {} via {} when {}", first.mode.name(), where_, case.api.name(), what),
+                    "the injection is reflected when made alone, but absent from the encoded function in this call sequence".to_string(),
+                )))
+            }
         }
     }
 }
@@ -910,7 +1050,7 @@ pub fn check_c22(tier: Tier) -> i32 {
         for mode in modes {
             for api in ALL_APIS {
                 if matches!(mode, SMode::FuncEntry | SMode::FuncExit) {
-                    cases.push(C22Case { program: prog.clone(), inj: Inj { at: 0, mode, c: 0x7400, drop_first: false }, api });
+                    cases.push(C22Case { program: prog.clone(), inj: Inj { at: 0, mode, c: 0x7400, drop_first: false, retract: false }, api });
                     continue;
                 }
                 // one site per distinct instruction role (+ every site in the thorough tier)
@@ -918,7 +1058,7 @@ pub fn check_c22(tier: Tier) -> i32 {
                 for (at, r) in roles.iter().enumerate() {
                     // (every instruction in both tiers: the space is tiny)
                     let _ = (&mut seen, tier);
-                    cases.push(C22Case { program: prog.clone(), inj: Inj { at, mode, c: 0x7400, drop_first: matches!(r, Role::If) && mode == SMode::BlockAlt }, api });
+                    cases.push(C22Case { program: prog.clone(), inj: Inj { at, mode, c: 0x7400, drop_first: matches!(r, Role::If) && mode == SMode::BlockAlt, retract: false }, api });
                 }
             }
         }
@@ -927,12 +1067,14 @@ pub fn check_c22(tier: Tier) -> i32 {
         "complete product: {{semantic-after, block-entry, block-exit, block-alt, empty-block-alt, func-entry, func-exit}} x 9 API paths (module iterator / function modifier / component iterator, each through mode()+inject, inject_at and *_at+add_instr_at) x every instruction role (thorough: every instruction) of 3 covering programs (block, loop, if, else, br, br_if, br_table to block / function label, plain instructions, inner ends, final end). Oracle: the call panics (= rejected at the call) or encoding fails loudly or the probe's unique constant occurs in the encoded function (empty-block-alt: the construct is gone); accepted-then-absent is the violation. {} cases.",
         cases.len()
     );
-    let results: Vec<Result<(Vec<Mismatch>, String, u64), String>> = cases.iter().map(|c| match catch(|| judge_c22(c)) { Ok(r) => r, Err(p) => Err(format!("harness panic {}", p.msg)) }).collect();
+    let results: Vec<Result<(Vec<Mismatch>, String, u64, bool), String>> = cases.iter().map(|c| match catch(|| judge_c22(c)) { Ok(r) => r, Err(p) => Err(format!("harness panic {}", p.msg)) }).collect();
     let mut rejected = 0u64;
+    let mut single_ok: Vec<bool> = vec![];
     for (c, r) in cases.iter().zip(results) {
+        single_ok.push(matches!(&r, Ok((_, _, _, true))));
         match r {
             Err(e) => run.machinery_error(e),
-            Ok((ms, class, h)) => {
+            Ok((ms, class, h, _)) => {
                 run.add_observed(h);
                 run.add_class("special modes", &class);
                 if ms.is_empty() && h == hash_of(&("rejected", "")) {
@@ -945,6 +1087,97 @@ pub fn check_c22(tier: Tier) -> i32 {
         }
     }
     let _ = rejected;
+    // ---- sequences: a special-mode injection together with another API call on the same function -----
+    // (a) an ordinary `before` probe injected after / before it (same API path), at another instruction
+    //     and at the same instruction; (b) a second special injection of the same mode elsewhere that is
+    //     withdrawn again with clear_instr_at. The first injection must still be reflected. Only
+    //     injections that are reflected when made alone are used (the others are judged above).
+    {
+        let reflected_alone: std::collections::HashSet<(usize, String, usize, String)> = cases
+            .iter()
+            .zip(single_ok.iter())
+            .filter(|(_, ok)| **ok)
+            .map(|(c, _)| (covering.iter().position(|b| *b == c.program.main).unwrap_or(0), c.inj.mode.name().to_string(), c.inj.at, c.api.name().to_string()))
+            .collect();
+        let mut seqs: Vec<(Case, i32, String)> = vec![];
+        for c in cases.iter() {
+            let pi = covering.iter().position(|b| *b == c.program.main).unwrap_or(0);
+            if !reflected_alone.contains(&(pi, c.inj.mode.name().to_string(), c.inj.at, c.api.name().to_string())) {
+                continue;
+            }
+            if matches!(c.inj.mode, SMode::EmptyBlockAlt) {
+                continue; // carries no marker constant
+            }
+            let em = emit(&c.program);
+            let roles = &em.roles[0];
+            let func_level = matches!(c.inj.mode, SMode::FuncEntry | SMode::FuncExit);
+            let plain = roles.iter().position(|r| matches!(r, Role::MarkConst)).unwrap_or(0);
+            let mut seconds = vec![plain];
+            if !func_level && c.inj.at != plain {
+                seconds.push(c.inj.at);
+            }
+            for at2 in seconds {
+                let o = Inj { at: at2, mode: SMode::Before, c: 0x7401, drop_first: false, retract: false };
+                let same = if at2 == c.inj.at && !func_level { "same instruction" } else { "another instruction" };
+                seqs.push((Case { program: c.program.clone(), plan: vec![c.inj.clone(), o.clone()], api: c.api }, c.inj.c, format!("followed by before on {}", same)));
+                seqs.push((Case { program: c.program.clone(), plan: vec![o, c.inj.clone()], api: c.api }, c.inj.c, format!("preceded by before on {}", same)));
+            }
+            // (c) a second special-mode injection of ANY mode elsewhere on the function, before or after it.
+            //     Not judged where the other one legitimately removes it: a block alternate whose region
+            //     (opener through matching end) contains the judged injection's instruction.
+            if let Ok(m) = load(&em.bytes) {
+                let fdec = &m.funcs[0];
+                for mode2 in [SMode::SemanticAfter, SMode::BlockEntry, SMode::BlockExit, SMode::BlockAlt, SMode::EmptyBlockAlt, SMode::FuncEntry, SMode::FuncExit] {
+                    let fl2 = matches!(mode2, SMode::FuncEntry | SMode::FuncExit);
+                    let sites2: Vec<usize> = if fl2 { vec![0] } else { (0..roles.len()).collect() };
+                    for at2 in sites2 {
+                        if !reflected_alone.contains(&(pi, mode2.name().to_string(), at2, c.api.name().to_string())) {
+                            continue;
+                        }
+                        if !fl2 && !func_level && at2 == c.inj.at {
+                            continue;
+                        }
+                        if mode2 == c.inj.mode && (fl2 || at2 < c.inj.at) {
+                            continue; // symmetric duplicates / two bodies of one function-level mode
+                        }
+                        if matches!(mode2, SMode::BlockAlt | SMode::EmptyBlockAlt) && !func_level {
+                            let end = fdec.end_of.get(at2).copied().unwrap_or(usize::MAX);
+                            if end != usize::MAX && c.inj.at >= at2 && c.inj.at <= end {
+                                continue;
+                            }
+                        }
+                        let o = Inj { at: at2, mode: mode2, c: 0x7403, drop_first: matches!(roles[at2], Role::If) && mode2 == SMode::BlockAlt, retract: false };
+                        seqs.push((Case { program: c.program.clone(), plan: vec![c.inj.clone(), o.clone()], api: c.api }, c.inj.c, String::new()));
+                        seqs.push((Case { program: c.program.clone(), plan: vec![o, c.inj.clone()], api: c.api }, c.inj.c, String::new()));
+                    }
+                }
+            }
+            if !func_level {
+                for (at2, r2) in roles.iter().enumerate() {
+                    if at2 == c.inj.at || !reflected_alone.contains(&(pi, c.inj.mode.name().to_string(), at2, c.api.name().to_string())) {
+                        continue;
+                    }
+                    let w = Inj { at: at2, mode: c.inj.mode, c: 0x7402, drop_first: matches!(r2, Role::If) && c.inj.mode == SMode::BlockAlt, retract: true };
+                    seqs.push((Case { program: c.program.clone(), plan: vec![c.inj.clone(), w], api: c.api }, c.inj.c, "followed by a withdrawn injection of the same mode elsewhere".to_string()));
+                }
+            }
+        }
+        let judged: Vec<Result<Option<Mismatch>, String>> = seqs.par_iter().map(|(case, _, _)| judge_c22_seq(case)).collect();
+        for ((case, _, _), r) in seqs.iter().zip(judged) {
+            let what = describe_seq(&case.plan);
+            match r {
+                Err(e) => run.machinery_error(e),
+                Ok(m) => {
+                    let first_mode = case.plan.iter().find(|i| i.c == 0x7400).map(|i| i.mode.name()).unwrap_or("?");
+                    run.add_class("special modes in call sequences", &format!("{}|{}|{}", first_mode, case.api.name(), what));
+                    if let Some(m) = m {
+                        run.add_mismatch("special modes in call sequences", json!(case), m.sig, m.detail, 1);
+                    }
+                }
+            }
+        }
+        run.add_evaluations("special modes in call sequences", seqs.len() as u64);
+    }
     run.add_evaluations("special modes x api paths x instruction kinds", cases.len() as u64);
     if let Some(c) = cases.get(cases.len() / 3) {
         run.add_sample(json!(c));
@@ -974,7 +1207,7 @@ pub fn reencode_family(run: &mut Run, tier: Tier) {
                     SMode::FuncEntry | SMode::FuncExit => at == 0,
                 };
                 if ok {
-                    cases.push(Case { program: prog.clone(), plan: vec![Inj { at, mode, c: 0x7500, drop_first: matches!(r, Role::If) && mode == SMode::BlockAlt }], api: [Api::IterMode, Api::ModAt][(pi + at) % 2] });
+                    cases.push(Case { program: prog.clone(), plan: vec![Inj { at, mode, c: 0x7500, drop_first: matches!(r, Role::If) && mode == SMode::BlockAlt, retract: false }], api: [Api::IterMode, Api::ModAt][(pi + at) % 2] });
                 }
             }
         }
@@ -1014,12 +1247,22 @@ pub fn reencode_family(run: &mut Run, tier: Tier) {
 
 pub fn replay(id: &str, family: &str, case: &serde_json::Value) -> Vec<Mismatch> {
     if id == "C22" {
+        if case.get("plan").is_some() {
+            let c: Case = match serde_json::from_value(case.clone()) {
+                Ok(c) => c,
+                Err(e) => return vec![Mismatch::new("replay-case-unreadable", e.to_string())],
+            };
+            return match judge_c22_seq(&c) {
+                Ok(m) => m.into_iter().collect(),
+                Err(e) => vec![Mismatch::new("machinery", e)],
+            };
+        }
         let c: C22Case = match serde_json::from_value(case.clone()) {
             Ok(c) => c,
             Err(e) => return vec![Mismatch::new("replay-case-unreadable", e.to_string())],
         };
         return match judge_c22(&c) {
-            Ok((ms, _, _)) => ms,
+            Ok((ms, _, _, _)) => ms,
             Err(e) => vec![Mismatch::new("machinery", e)],
         };
     }
